@@ -511,6 +511,14 @@ func (lb *LoadBalancer) RemoveBackend(name string) {
 			lb.strategy.RemoveBackend(backend)
 		}
 	}
+
+	// Passive failures are counted per name: a backend registered under this name later
+	// starts with a clean record
+	if lb.healthChecks != nil {
+		lb.healthChecks.unhealthyBackendMu.Lock()
+		delete(lb.healthChecks.unhealthyBackends, name)
+		lb.healthChecks.unhealthyBackendMu.Unlock()
+	}
 }
 
 // NextBackend returns the next backend server according to the strategy
